@@ -307,10 +307,12 @@ impl Number {
     /// units, and possibly apply SI prefixes.
     pub fn prettify(&self, context: &Context) -> Number {
         let unit = self.pretty_unit(context);
-        // Prefixes are raised to the unit's power, which has to fit.
+        // Prefixes are raised to the unit's power. That gets expensive for
+        // huge powers (yotta^32767 has 786 thousand digits), where a prefix
+        // wouldn't make the result any more readable either.
         let single = unit
             .as_single()
-            .filter(|&(_, power)| power.checked_abs().map_or(false, |power| power <= i32::MAX as i64));
+            .filter(|&(_, power)| power.checked_abs().map_or(false, |power| power <= 1000));
         if let Some(orig) = single {
             use std::collections::HashSet;
             let prefixes = [
